@@ -297,6 +297,10 @@ class PrefixExpression(FilterExpression):
         super().__init__()
 
     def __str__(self) -> str:
+        # A negated comparison keeps its parentheses, or the negation would
+        # apply to the left hand side of the comparison only.
+        if isinstance(self.right, InfixExpression) and not self.right.logical:
+            return f"{self.operator}({self.right})"
         return f"{self.operator}{self.right}"
 
     def __eq__(self, other: object) -> bool:
